@@ -610,3 +610,35 @@ Example page_nonvacuous :
   /\ paginate_vec [2;3;5;7;11] None (Some (CKey 4)) None (Some 9%Z) None = ROk (mkPage [5;7;11] false false)
   /\ paginate_vec [2;3;5;7;11] None None (Some (CKey 5)) None (Some 2%Z) = ROk (mkPage [3;2] true false).
 Proof. vm_compute. repeat split; reflexivity. Qed.
+
+(* ---------- meaning of the request checker ---------- *)
+
+Definition ReqSpec (coll : list N) (after before : option cstr) (first last : option Z)
+           (r : result) : Prop :=
+  match expected after before first last with
+  | EErr e => r = RErr e
+  | EPage c n d => exists p, r = ROk p /\ PageSpec coll c n d p
+  end.
+
+Theorem req_code_sound_all coll after before first last r :
+  req_code coll after before first last r = 1 <-> ReqSpec coll after before first last r.
+Proof.
+  unfold req_code, ReqSpec. destruct (expected after before first last) as [e|c n d].
+  - destruct r as [p|e']; [split; [discriminate | intros H; discriminate]|].
+    destruct (N.eqb_spec e e') as [->|Hne]; split; try reflexivity; try discriminate.
+    intros H. inversion H. congruence.
+  - destruct r as [p|e'].
+    + pose proof (page_okb_sound_all coll c n d p) as H. unfold page_okb in H.
+      rewrite N.eqb_eq in H. rewrite H. split; [intros Hp; exists p; tauto|].
+      intros (p' & E & Hp). inversion E; subst. exact Hp.
+    + split; [discriminate | intros (p' & E & _); discriminate].
+Qed.
+
+(* the extension of the property to failing reads does NOT hold: witness *)
+Theorem storage_failure_masked_witness :
+  exists coll fail after before first last,
+    ssortedb coll = true /\
+    fail_code coll after before first last (paginate_vec coll fail after before first last) <> 1.
+Proof.
+  exists [2;4;6;8], (Some 1), None, None, (Some 3%Z), None. vm_compute. split; [reflexivity | discriminate].
+Qed.
